@@ -624,6 +624,15 @@ func (fc *FuncCtx) binopFormula(x *ssa.BinOp) *bddNode {
 			neg = true
 		}
 		var f *bddNode
+		// two constants (the header of a one-iteration block, `for range 1`): decided here
+		if ka, okA := constInt(a); okA {
+			if kb, okB := constInt(b); okB {
+				if (ka < kb) != neg {
+					return B.True
+				}
+				return B.False
+			}
+		}
 		// len(s) > 0  / 0 < len(s)  -> !empty(s)
 		if la := lenArg(b); la != nil && isIntConst(a, 0) {
 			f = B.Not(fc.emptyAtom(x, la))
